@@ -725,6 +725,37 @@ func keepalive(f *failures, stats map[string]int) {
 			c.c.Close()
 		}(i, ping)
 	}
+	// active at uneven intervals, every one shorter than K: a short gap followed by a long one (a deadline that is
+	// not re-armed at every read is still running from the packet before)
+	rng := hx.NewRng(hx.EnvSeed() + 19)
+	for i := 0; i < 2; i++ {
+		var gaps []int
+		for k := 0; k < 3; k++ {
+			gaps = append(gaps, []int{450, 200}[i]+rng.Intn([]int{140, 100}[i]), []int{800, 900}[i]+rng.Intn([]int{150, 50}[i]))
+		}
+		wg.Add(1)
+		go func(i int, gaps []int) {
+			defer wg.Done()
+			c, err := b.connect(fmt.Sprintf("uneven%d", i), 1, &mq.ConnectOpts{WillTopic: fmt.Sprintf("will/active-uneven%d", i), WillMsg: []byte("gone")})
+			if err != nil {
+				f.add("harness: %v", err)
+				return
+			}
+			for _, g := range gaps {
+				time.Sleep(time.Duration(g) * time.Millisecond)
+				if c.write(mq.Pingreq()) != nil {
+					f.add("C19: a client with keep-alive 1s that sent a packet after gaps of %v ms (each shorter than the keep-alive) was disconnected", gaps)
+					return
+				}
+				if p, err := c.read(2 * time.Second); err != nil || mq.Type(p) != mq.PINGRESP {
+					f.add("C19: PINGREQ of a client active at intervals %v ms (keep-alive 1s) was not answered by PINGRESP: %v %x", gaps, err, p)
+					return
+				}
+			}
+			c.write(mq.Disconnect())
+			c.c.Close()
+		}(i, gaps)
+	}
 	wg.Wait()
 	// the wills of the two silent clients, and only those
 	got := map[string]bool{}
